@@ -46,8 +46,49 @@ func genInts(r *rand.Rand, n int) ([]int64, string) {
 	if n == 0 {
 		return a, "empty"
 	}
-	kind := r.Intn(9)
+	kind := r.Intn(11)
 	switch kind {
+	case 9: // an arithmetic progression whose interior is nudged: monotone, same first step and same total span, steps not constant
+		v, d := pickInt(r)/4, int64(r.Intn(2000)-1000)
+		if d == 0 {
+			d = 10
+		}
+		for i := range a {
+			a[i] = v + int64(i)*d
+		}
+		if n >= 4 {
+			for k := 1 + r.Intn(3); k > 0; k-- {
+				i := 2 + r.Intn(n-3) // never the first step, never the endpoints
+				e := d / 2
+				if e == 0 {
+					e = d
+				}
+				if r.Intn(2) == 0 && d/3 != 0 {
+					e = d / 3
+				}
+				if r.Intn(2) == 0 {
+					e = -e
+				}
+				a[i] += e
+			}
+		}
+		return a, "nearconstdelta"
+	case 10: // constant delta with one different step (first, last or in the middle)
+		v, d := pickInt(r)/4, int64(r.Intn(2000)-1000)
+		for i := range a {
+			a[i] = v + int64(i)*d
+		}
+		if n >= 2 {
+			j := []int{1, n - 1, 1 + r.Intn(n-1)}[r.Intn(3)]
+			e := int64(r.Intn(7) - 3)
+			if e == 0 {
+				e = 1
+			}
+			for i := j; i < n; i++ {
+				a[i] += e
+			}
+		}
+		return a, "deltaconstbutone"
 	case 0: // constant
 		v := pickInt(r)
 		for i := range a {
@@ -304,7 +345,7 @@ func addSeed(dec string, s seedEnc) {
 }
 
 func roundTrips(s *verifh.Sink) {
-	n := verifh.Pick(6000, 100000)
+	n := verifh.Pick(6000, 30000)
 	for i := 0; i < n; i++ {
 		r := verifh.Rand("c11rt", i)
 		// 1. int64 lists, all modes
@@ -831,6 +872,12 @@ func hostile(s *verifh.Sink, t *testing.T) {
 			if alloc > 4<<30 || cpu > int64(300*time.Second) {
 				name, _ := st.curName.Load().(string)
 				in, _ := os.ReadFile(filepath.Join(scratch, "current-input.bin"))
+				if alloc > 4<<30 && cpu <= int64(300*time.Second) && zstdDeclared(in, uint64(32<<20)) != "" {
+					// the recorded zstd finding (the library allocates the size a frame header declares): whether this
+					// sampler sees the allocation mid-call depends on how slow the machine is; the call is left to
+					// finish and is judged, and attributed, by the per-call bound below
+					continue
+				}
 				why := "unbounded-allocation"
 				if alloc <= 4<<30 {
 					why = "cpu-hang"
@@ -866,6 +913,7 @@ func hostile(s *verifh.Sink, t *testing.T) {
 		}()
 		st.curStart.Store(0)
 		c1 := cpuNanos()
+		allocated := allocBytes() - a0
 		s.Case(name+"/"+hex.EncodeToString(in.b)+fmt.Sprint(in.count, in.mt), len(in.b) >= 1)
 		s.Count("hostile."+name+".calls", 1)
 		s.Count("hostile.mutation."+mut, 1)
@@ -880,15 +928,32 @@ func hostile(s *verifh.Sink, t *testing.T) {
 				"input": hex.EncodeToString(in.b[:min(len(in.b), 2048)]), "input_len": len(in.b), "stack": clipStr(stack, 1800)})
 		}
 		if c1-c0 > int64(10*time.Second) {
-			s.Violation(zstdKey(name, "cpu", in.b), map[string]any{"cpu_ns": c1 - c0, "input": hex.EncodeToString(in.b[:min(len(in.b), 2048)])})
+			// A decoder that burns CPU on an input does so every time; collector assists, page faults and a loaded
+			// machine do not repeat. The verdict is the cheapest of three runs of the very same call.
+			best := c1 - c0
+			for k := 0; k < 2 && perr == nil; k++ {
+				st.curStart.Store(time.Since(epoch).Nanoseconds() | 1)
+				r0 := cpuNanos()
+				func() {
+					defer func() { _ = recover() }()
+					_ = f()
+				}()
+				best = min(best, cpuNanos()-r0)
+				st.curStart.Store(0)
+			}
+			s.Count("hostile.cpu_remeasured", 1)
+			if best > int64(10*time.Second) {
+				os.WriteFile(filepath.Join(scratch, "cpu-input-"+name+".bin"), append([]byte(hdr), in.b...), 0o644)
+				s.Violation(zstdKey(name, "cpu", in.b), map[string]any{"cpu_ns_best_of_3": best, "cpu_ns_first": c1 - c0, "input_len": len(in.b), "input": hex.EncodeToString(in.b[:min(len(in.b), 2048)])})
+			}
 		}
 		bound := uint64(64<<20) + 64*uint64(len(in.b)+in.count)
-		if d := allocBytes() - a0; d > bound {
+		if d := allocated; d > bound {
 			s.Violation(zstdKey(name, "alloc", in.b), map[string]any{"allocated": d, "bound": bound, "count": in.count, "input": hex.EncodeToString(in.b[:min(len(in.b), 2048)])})
 		}
 	}
 
-	n := verifh.Pick(12000, 200000)
+	n := verifh.Pick(12000, 60000)
 	decoders := []string{"int64list", "varint64", "varuint64", "uint64block", "bytesblock", "dictionary", "dictvalues", "vararray", "lenprefixed", "zstd", "tagvalues", "bytesblocktail"}
 	seedOf := map[string]string{"dictvalues": "dictionary", "bytesblocktail": "bytesblock"}
 	for i := 0; i < n; i++ {
@@ -1008,6 +1073,68 @@ func hostile(s *verifh.Sink, t *testing.T) {
 				})
 			}
 		}
+	}
+
+	// Well-framed hostile inputs: every layer in front of the attacked field is valid, so the bounds checks behind
+	// it are actually reached (a mutated real encoding almost never keeps the framing intact). A bytes block is
+	// "uint64 block of lengths (stored +1) || compressed payload": the lengths list is re-encoded with the real
+	// encoder from hostile values and glued to the intact payload of a real block.
+	nf := verifh.Pick(1500, 8000)
+	for i := 0; i < nf; i++ {
+		r := verifh.Rand("c11framed", i)
+		n := 1 + r.Intn(6)
+		if r.Intn(8) == 0 {
+			n = 1 + r.Intn(300)
+		}
+		items := make([][]byte, n)
+		realLens := make([]uint64, n)
+		total := 0
+		for k := range items {
+			items[k] = make([]byte, r.Intn(12))
+			r.Read(items[k])
+			realLens[k] = uint64(len(items[k])) + 1
+			total += len(items[k])
+		}
+		real := encoding.EncodeBytesBlock(nil, items)
+		payload := real[len(encoding.EncodeUint64Block(nil, realLens)):]
+		lens := append([]uint64(nil), realLens...)
+		for m := 1 + r.Intn(2); m > 0; m-- {
+			k := r.Intn(n)
+			switch r.Intn(9) {
+			case 0:
+				lens[k] = 1 << 63
+			case 1:
+				lens[k] = 1<<63 + uint64(r.Intn(16))
+			case 2:
+				lens[k] = math.MaxUint64
+			case 3:
+				lens[k] = math.MaxUint64 - uint64(r.Intn(16))
+			case 4:
+				lens[k] = uint64(total) + 1 + uint64(r.Intn(3)) // up to two bytes past the payload
+			case 5:
+				lens[k] = 1<<32 + uint64(r.Intn(4))
+			case 6:
+				lens[k] = 1<<31 + uint64(r.Intn(4))
+			case 7:
+				lens[k] = uint64(r.Int63()) | 1<<62
+			case 8:
+				lens[k] = 0
+			}
+		}
+		in := seedEnc{b: append(encoding.EncodeUint64Block(nil, lens), payload...), count: n}
+		cnt := uint64(n)
+		call("bytesblock", in, "framed-lengths", func() error {
+			var d encoding.BytesBlockDecoder
+			_, err := d.Decode(nil, in.b, cnt)
+			return err
+		})
+		tailed := seedEnc{b: append(append([]byte(nil), in.b...), byte(r.Intn(256)), byte(r.Intn(256))), count: n}
+		call("bytesblocktail", tailed, "framed-lengths", func() error {
+			var d encoding.BytesBlockDecoder
+			_, _, err := d.DecodeWithTail(nil, tailed.b, cnt)
+			return err
+		})
+		s.Count("hostile.framed_bytes_blocks", 1)
 	}
 }
 
